@@ -27,7 +27,7 @@ def all_splits(n):
 class C05(Check):
     PID = 'C05'
     RULE = ('seeded random past-time (and pastified bounded eventually/always) dense-time formulas x signals with 2-7 samples per variable starting at 0; '
-            'for one-variable formulas every one of the 2^(n-1) chunkings (n <= 6), otherwise 24 random chunkings with independent cuts per variable; '
+            'nested bounded past operators under a binary operator; for one-variable formulas every one of the 2^(n-1) chunkings (n <= 6), otherwise 24 random chunkings with independent cuts per variable; '
             'per chunking: the concatenated outputs must have non-decreasing stamps and, as a step function, equal Dn (Dense.v) of the (pastified) formula on the '
             'region they cover; all chunkings are thereby compared with each other; non-trivial = temporal operator and >= 4 chunkings; '
             'distinct by (formula, signals)')
@@ -44,6 +44,13 @@ class C05(Check):
                 ('or', P, Q), ('or', ('oncet', 0, 4, P), Q), ('and', ('histt', 0, 4, P), Q), ('or', ('alwt', 0, 4, P), Q), ('implies', ('histt', 2, 4, P), Q),
                 ('or', Q, ('oncet', 0, 2, P)), ('iff', P, Q), ('since', ('histt', 0, 2, P), Q)]
         items = [(f, 2) for f in base for _ in range(2)]
+        # bounded past operators fed by bounded past operators: the inner operator hands over batches that begin with the last sample
+        # of the previous batch, and the outer one keeps a provisional piece for the last sample of every batch
+        X, Y = ('var', 0), ('var', 1)
+        nested = [('sincet', 0, 2, X, ('oncet', 8, 10, Y)), ('and', ('oncet', 0, 2, ('oncet', 4, 6, P)), Q), ('or', ('histt', 0, 2, ('histt', 2, 6, P)), Q),
+                  ('and', ('oncet', 0, 2, ('histt', 2, 4, P)), ('histt', 0, 2, ('oncet', 2, 4, Q))), ('sincet', 0, 4, ('histt', 0, 2, P), ('oncet', 2, 4, Q)),
+                  ('or', ('oncet', 0, 2, ('oncet', 8, 10, Y)), X), ('and', ('histt', 0, 2, ('histt', 8, 10, Y)), X)]
+        items += [(f, 2) for f in nested for _ in range(3 if tier == 'quick' else 12)]
         for i in range(nrand):
             nv = rng.choice([1, 1, 2, 2])
             f = gen_dense_formula(rng, nv, rng.choice([1, 1, 2, 2, 3]), future=(rng.random() < 0.4))
@@ -64,6 +71,12 @@ class C05(Check):
         LS = ('sincet', 1, 1, ('var', 0), ('const', 0))
         sg = [[[12, 0], [18, 0]]]
         cases.append({'f': LS, 'nv': 1, 'sigs': sg, 'chunkings': [{'0': [(0, 2)]}, {'0': [(0, 1), (1, 2)]}], 'past': False, 'n': 2})
+        # a bounded once whose last sample of a batch is dominated (zero-length provisional piece), fed by another bounded once
+        sg = [[[0, 0], [6, 0], [14, 0], [20, 2], [26, 5]], [[0, 1], [7, -5], [11, 1], [17, -3], [25, 3]]]
+        for f in (nested[0], nested[5], ('and', ('oncet', 0, 2, ('oncet', 8, 10, Y)), X)):
+            cases.append({'f': f, 'nv': 2, 'sigs': sg, 'past': False, 'n': 5,
+                          'chunkings': [{'0': [(0, 5)], '1': [(0, 5)]}, {'0': [(j, j + 1) for j in range(5)], '1': [(j, j + 1) for j in range(5)]},
+                                        {'0': [(0, 2), (2, 4), (4, 5)], '1': [(0, 1), (1, 4), (4, 5)]}]})
         for (f, nv) in items:
             if fml.size(f) > 20 or not fml.fvars(f):
                 continue
